@@ -12,13 +12,17 @@ package main
 // same inputs.
 
 import (
+	"bytes"
 	"context"
 	"crypto/x509"
 	"encoding/json"
 	"errors"
 	"fmt"
+	"hash/fnv"
 	"math/big"
 	"math/rand"
+	"net/http"
+	"net/url"
 	"sort"
 	"strings"
 	"time"
@@ -40,6 +44,16 @@ type c14World struct {
 	refused   string
 	dgLong    *doubles.OCSPDelegate
 	dgShort   *doubles.OCSPDelegate // NotAfter = start + 3 h
+	dgNoEKU   *doubles.OCSPDelegate // an ordinary certificate of the CA, without id-kp-OCSPSigning
+	dgExpired *doubles.OCSPDelegate // NotAfter = start - 1 h
+	dgFuture  *doubles.OCSPDelegate // NotBefore = start + 2 h
+	dgSelf    *doubles.OCSPDelegate // marker: signed by the CA with its own certificate embedded
+	aiaURL    string
+	aiaHits   func() int
+	// the code's own key functions are only recorded: how often they agree with the
+	// independently computed storage keys
+	keyAgree, keyDisagree int
+	keyDetail             string
 	serial    int64
 	rnd       *rand.Rand
 	w         *emit.Writer
@@ -51,6 +65,7 @@ type c14World struct {
 	// unexpected failures while setting a case up (never a panic: reported as a failed check)
 	setupFailures int
 	setupDetail   string
+	hung          int
 }
 
 func (wd *c14World) setupFailed(what string, err error) {
@@ -70,8 +85,35 @@ type c14Cert struct {
 	leaf     *x509.Certificate
 	url      bool
 	flavor   string
-	key      string // storage key of the persisted staple
+	key      string // storage key of the persisted staple (computed by the harness itself)
 	managed  bool
+	chain    bool // the issuer certificate is part of what is handed to certmagic
+}
+
+// c14StapleKey is the storage key of the persisted staple, computed independently of the code
+// under test: "ocsp/<name>-<FNV-1a 32 of the PEM chain, hex>" (harness names need no
+// sanitising: lower-case letters, digits, '-', '.').
+func c14StapleKey(name string, chainPEM []byte) string {
+	h := fnv.New32a()
+	h.Write(chainPEM)
+	return fmt.Sprintf("ocsp/%s-%x", strings.ToLower(name), h.Sum32())
+}
+
+func c14SiteKey(issuerKey, name, ext string) string {
+	return "certificates/" + issuerKey + "/" + name + "/" + name + ext
+}
+
+// recordCodeKeys compares (for the record only) with what the code's own key builders say.
+func (wd *c14World) recordCodeKeys(c *c14Cert) {
+	code := certmagic.StorageKeys.OCSPStaple(&certmagic.Certificate{Names: []string{strings.ToLower(c.name)}}, c.chainPEM)
+	if code == c.key {
+		wd.keyAgree++
+	} else {
+		wd.keyDisagree++
+		if wd.keyDetail == "" {
+			wd.keyDetail = fmt.Sprintf("code %q, harness %q", code, c.key)
+		}
+	}
 }
 
 func (c *c14Cert) expiry() time.Time { return c.leaf.NotAfter.Truncate(time.Second).Add(time.Second) }
@@ -95,22 +137,31 @@ func (wd *c14World) newLeaf(flavor, name string) *c14Cert {
 	}
 	wd.serial++
 	o.Serial = wd.serial
-	chain, leaf, key, err := wd.ca.Leaf(o)
+	x := doubles.LeafXOpts{LeafOpts: o}
+	switch flavor {
+	case "noissuer-aia":
+		x.IssuingCertificateURL = []string{wd.aiaURL}
+	case "muststaple":
+		x.MustStaple = true
+	case "deadurl":
+		x.OCSPServer = []string{wd.refused + "/dead"}
+	}
+	chain, leaf, key, err := wd.ca.LeafX(x)
 	if err != nil {
 		panic(err)
 	}
-	c := &c14Cert{name: name, chainPEM: chain, keyPEM: key, leaf: leaf, url: len(o.OCSPServer) > 0, flavor: flavor}
-	if flavor == "noissuer" {
+	c := &c14Cert{name: name, chainPEM: chain, keyPEM: key, leaf: leaf, url: len(x.OCSPServer) > 0, flavor: flavor, chain: true}
+	if flavor == "noissuer" || flavor == "noissuer-aia" {
 		c.chainPEM = chain[:len(chain)-len(wd.ca.CertPEM)]
-		c.url = false
+		c.chain = false
+		c.url = flavor == "noissuer-aia" // the issuer can be downloaded, so the responder can be asked
 	}
 	c.setKey()
+	wd.recordCodeKeys(c)
 	return c
 }
 
-func (c *c14Cert) setKey() {
-	c.key = certmagic.StorageKeys.OCSPStaple(&certmagic.Certificate{Names: []string{strings.ToLower(c.name)}}, c.chainPEM)
-}
+func (c *c14Cert) setKey() { c.key = c14StapleKey(c.name, c.chainPEM) }
 
 // ---------------------------------------------------------------- responder answers
 
@@ -122,7 +173,7 @@ type c14Ans struct {
 	Serial string `json:"serial,omitempty"`
 	This   string `json:"this,omitempty"`
 	Next   string `json:"next,omitempty"`
-	Signer string `json:"signer,omitempty"` // ca | other | delegate | delegate-short
+	Signer string `json:"signer,omitempty"` // ca | other | delegate | delegate-short | delegate-noeku | delegate-expired | delegate-future | ca-embedded
 	Reason int    `json:"reason,omitempty"`
 }
 
@@ -193,6 +244,14 @@ func (wd *c14World) build(a c14Ans, c *c14Cert, now time.Time) []byte {
 		dg = wd.dgLong
 	case "delegate-short":
 		dg = wd.dgShort
+	case "delegate-noeku":
+		dg = wd.dgNoEKU
+	case "delegate-expired":
+		dg = wd.dgExpired
+	case "delegate-future":
+		dg = wd.dgFuture
+	case "ca-embedded":
+		dg = wd.dgSelf
 	}
 	b := ca.OCSPResponse(serial, a.Status, c14Time(a.This, now, c), c14Time(a.Next, now, c), a.Reason, dg)
 	if a.Kind == "truncated" {
@@ -265,7 +324,7 @@ func (t *c14Tables) unknownCert(serial, name string, leaf *x509.Certificate) *c1
 		now := time.Now()
 		leaf = &x509.Certificate{SerialNumber: sn, NotBefore: now.Add(-time.Hour), NotAfter: now.Add(90 * 24 * time.Hour)}
 	}
-	c := &c14Cert{name: name, leaf: leaf, url: true, flavor: "unknown"}
+	c := &c14Cert{name: name, leaf: leaf, url: true, flavor: "unknown", chain: true}
 	c.setKey()
 	t.addCert(c)
 	t.wd.w.Hist("hist.UNKNOWN-CERTIFICATE")
@@ -284,6 +343,7 @@ type c14Parsed struct {
 	This   string `json:"this"`
 	Next   string `json:"next"`
 	Sig    bool   `json:"sig"`
+	RC     string `json:"responder_cert,omitempty"`
 }
 
 // encode writes blob and cert tables; it also validates the ParseResponse oracle contract.
@@ -309,17 +369,27 @@ func (t *c14Tables) encode(e *emit.Enc) []c14Parsed {
 			wd.oracleDetail = "fields differ between ParseResponse(b,nil) and ParseResponse(b,issuer)"
 		}
 		e.Bool(true).Int(r.Status).Big(r.SerialNumber.String()).Big(bigTime(r.ThisUpdate)).Big(bigTime(r.NextUpdate))
-		if r.Certificate != nil {
-			e.Bool(true).Big(bigTime(r.Certificate.NotAfter))
+		rcDesc := ""
+		if rc := r.Certificate; rc != nil {
+			// the embedded responder certificate, looked at with the standard library only
+			eku := false
+			for _, u := range rc.ExtKeyUsage {
+				if u == x509.ExtKeyUsageOCSPSigning {
+					eku = true
+				}
+			}
+			isIssuer := bytes.Equal(rc.Raw, wd.ca.Cert.Raw)
+			e.Bool(true).Big(bigTime(rc.NotAfter)).Big(bigTime(rc.NotBefore)).Bool(eku).Bool(isIssuer)
+			rcDesc = fmt.Sprintf("notAfter=%s eku=%v issuer=%v", rc.NotAfter.UTC().Format(time.RFC3339), eku, isIssuer)
 		} else {
 			e.Bool(false)
 		}
 		e.Bool(erri == nil)
-		out = append(out, c14Parsed{OK: true, Status: r.Status, Serial: r.SerialNumber.String(), This: r.ThisUpdate.UTC().Format(time.RFC3339), Next: r.NextUpdate.UTC().Format(time.RFC3339), Sig: erri == nil})
+		out = append(out, c14Parsed{OK: true, Status: r.Status, Serial: r.SerialNumber.String(), This: r.ThisUpdate.UTC().Format(time.RFC3339), Next: r.NextUpdate.UTC().Format(time.RFC3339), Sig: erri == nil, RC: rcDesc})
 	}
 	e.Len(len(t.certs))
 	for _, c := range t.certs {
-		e.Int(c.nameID).Big(c.leaf.SerialNumber.String()).Big(bigTime(c.expiry())).Z(int64(c.expiry().Sub(c.leaf.NotBefore))).Bool(c.url).Bool(c.flavor != "noissuer")
+		e.Int(c.nameID).Big(c.leaf.SerialNumber.String()).Big(bigTime(c.expiry())).Z(int64(c.expiry().Sub(c.leaf.NotBefore))).Bool(c.url).Bool(c.chain)
 	}
 	return out
 }
@@ -421,6 +491,7 @@ type c14CallIn struct {
 	Flavor   string    `json:"flavor"`
 	Disabled bool      `json:"disabled,omitempty"`
 	Override string    `json:"override,omitempty"` // "" | "off" (responder disabled by override)
+	Via      string    `json:"via,omitempty"`      // "" | "proxy" (OCSPConfig.HTTPProxy) | "override" (ResponderOverrides to the live responder)
 	NilPEM   bool      `json:"nil_pem,omitempty"`
 	Stored   string    `json:"stored"` // label of the persisted state
 	StoredA  *c14Ans   `json:"stored_a,omitempty"`
@@ -451,6 +522,10 @@ var c14Stored = map[string]*c14Ans{
 	"fresh-at-expiry":    {Kind: "resp", Status: ocsp.Good, Serial: "right", This: "recent", Next: "at-expiry", Signer: "ca"},
 	// a persisted staple that does not verify against the issuer (fixed finding C14-forged-persisted-staple)
 	"fresh-forged": {Kind: "resp", Status: ocsp.Good, Serial: "right", This: "recent", Next: "week", Signer: "other"},
+	// signed by a certificate of the CA that is not (or no longer / not yet) a responder certificate
+	"fresh-delegate-noeku":   {Kind: "resp", Status: ocsp.Good, Serial: "right", This: "recent", Next: "week", Signer: "delegate-noeku"},
+	"fresh-delegate-expired": {Kind: "resp", Status: ocsp.Good, Serial: "right", This: "recent", Next: "week", Signer: "delegate-expired"},
+	"fresh-ca-embedded":      {Kind: "resp", Status: ocsp.Good, Serial: "right", This: "recent", Next: "week", Signer: "ca-embedded"},
 }
 
 // c14StoredKeys: the persisted states used by the generators.
@@ -458,8 +533,20 @@ func c14StoredKeys() []string { return emit.SortedKeys(c14Stored) }
 
 func c14Class(in c14CallIn) string {
 	a := in.Ans
-	if in.Stored == "fresh-forged" && in.Flavor == "noissuer" {
+	if in.Stored == "fresh-forged" && (in.Flavor == "noissuer" || in.Flavor == "noissuer-aia") {
 		return "forged-persisted-no-chain"
+	}
+	if in.Stored == "fresh" && in.Flavor == "noissuer-aia" && a.Kind == "drop" {
+		return "chainless-persisted-not-reused"
+	}
+	if in.Stored == "absent" && a.Kind == "resp" && a.Status == ocsp.Good && in.Flavor == "normal" && !in.Disabled &&
+		a.Serial == "right" && a.This == "recent" && a.Next == "week" {
+		switch a.Signer {
+		case "delegate-noeku":
+			return "good-unauthorized-responder"
+		case "delegate-expired":
+			return "good-expired-responder"
+		}
 	}
 	if in.Stored == "fresh-forged" && in.Flavor == "normal" && a.Kind == "drop" {
 		return "forged-persisted"
@@ -510,6 +597,8 @@ func (wd *c14World) runCall(in c14CallIn) {
 	if in.Override == "off" && len(c.leaf.OCSPServer) > 0 {
 		cfg.ResponderOverrides = map[string]string{c.leaf.OCSPServer[0]: ""}
 	}
+	live := wd.resp.URL // where requests must go to reach the responder double
+	dead := in.Flavor == "deadurl" && in.Via == ""
 	pem := c.chainPEM
 	if in.NilPEM {
 		pem = nil
@@ -518,8 +607,21 @@ func (wd *c14World) runCall(in c14CallIn) {
 		now := time.Now()
 		ev, ans := t.mkEnv(a, c, now, f)
 		ocfg := cfg
-		if a.Kind == "refused" && ocfg.ResponderOverrides == nil && len(c.leaf.OCSPServer) > 0 {
-			ocfg.ResponderOverrides = map[string]string{c.leaf.OCSPServer[0]: wd.refused}
+		if dead && (a.Kind != "refused") {
+			a = c14Ans{Kind: "refused"} // nothing listens at the certificate's responder URL
+			ev, ans = t.mkEnv(a, c, now, f)
+		}
+		target := live
+		if a.Kind == "refused" {
+			target = wd.refused
+		}
+		switch {
+		case in.Override == "off" || len(c.leaf.OCSPServer) == 0:
+		case in.Via == "proxy":
+			pu, _ := url.Parse(target)
+			ocfg.HTTPProxy = func(*http.Request) (*url.URL, error) { return pu, nil }
+		case in.Via == "override" || a.Kind == "refused":
+			ocfg.ResponderOverrides = map[string]string{c.leaf.OCSPServer[0]: target}
 		}
 		wd.resp.SetAnswer(func(*big.Int) doubles.OCSPAnswer { return ans })
 		b.Log.Hook = c14Hook("ocsp/", func(string) c14Faults { return f })
@@ -558,9 +660,12 @@ func (wd *c14World) runCall(in c14CallIn) {
 		e.Bool(obs.Seen).Bool(serr != nil).ZList(obs.Ops)
 		class := c14Class(in)
 		nontrivial := !in.Disabled && (preV.Stored >= 0 || (c.url && a.Kind != "refused"))
-		wd.w.Add(emit.Case{Desc: map[string]any{"kind": "call", "class": class, "flavor": in.Flavor, "stored": in.Stored, "ans": a.label()},
+		wd.w.Add(emit.Case{Desc: map[string]any{"kind": "call", "class": class, "flavor": in.Flavor, "stored": in.Stored, "ans": a.label(), "via": in.Via},
 			In: in, Obs: map[string]any{"pre": preV, "post": obs, "blobs": parsed}, Wire: e.String(), Nontrivial: nontrivial,
-			Key: fmt.Sprint("call ", in.Flavor, in.Override, in.Disabled, in.NilPEM, in.Stored, in.Prev != nil, a.label(), f)})
+			Key: fmt.Sprint("call ", in.Flavor, in.Override, in.Via, in.Disabled, in.NilPEM, in.Stored, in.Prev != nil, a.label(), f)})
+		if in.Via != "" {
+			wd.w.Hist("call.via=" + in.Via)
+		}
 		wd.w.Hist("call.flavor=" + in.Flavor)
 		wd.w.Hist("call.stored=" + in.Stored)
 		if a.Kind == "resp" {
@@ -606,7 +711,7 @@ func (wd *c14World) runCall(in c14CallIn) {
 // ---------------------------------------------------------------- kind 1: histories
 
 type c14HOp struct {
-	Op       string            `json:"op"` // tamper | cache | maintain | restart
+	Op       string            `json:"op"` // tamper | cache | maintain | restart | handshake | manage
 	Cert     int               `json:"cert,omitempty"`
 	Stored   string            `json:"stored,omitempty"`
 	Disabled bool              `json:"disabled,omitempty"`
@@ -640,7 +745,7 @@ func (h *c14Hist) newInstance() {
 	if h.cache != nil {
 		h.cache.Stop()
 	}
-	h.cfg, h.cache = doubles.NewConfig(h.b.Handle("i1"), certmagic.Config{}, certmagic.CacheOptions{}, h.iss)
+	h.cfg, h.cache = doubles.NewConfig(h.b.Handle("i1"), certmagic.Config{DisableARI: true}, certmagic.CacheOptions{}, h.iss)
 }
 
 func (h *c14Hist) snapshot(e *emit.Enc) (any, map[int]bool) {
@@ -725,8 +830,30 @@ func (h *c14Hist) served(e *emit.Enc) any {
 	return out
 }
 
-// runHist executes a plan and emits one case. Returns false if the plan could not be run.
+// runHist executes a plan and emits one case. An operation of the real code that does not come
+// back (for instance a renewal retried forever) must not stall the check: the history is abandoned
+// after a deadline and reported as a failed oracle check.
 func (wd *c14World) runHist(plan c14Plan, desc map[string]any) {
+	if wd.hung >= 2 {
+		return // every further history would cost another deadline
+	}
+	done := make(chan struct{})
+	abandoned := new(bool)
+	go func() {
+		defer close(done)
+		wd.runHist1(plan, desc, abandoned)
+	}()
+	select {
+	case <-done:
+	case <-time.After(90 * time.Second):
+		*abandoned = true
+		pj, _ := json.Marshal(plan)
+		wd.setupFailed("history did not finish within 90 s (an operation of the real code hangs): "+string(pj), errors.New("abandoned"))
+		wd.hung++
+	}
+}
+
+func (wd *c14World) runHist1(plan c14Plan, desc map[string]any, abandoned *bool) {
 	defer func() {
 		if r := recover(); r != nil {
 			pj, _ := json.Marshal(plan)
@@ -747,8 +874,9 @@ func (wd *c14World) runHist(plan c14Plan, desc map[string]any) {
 	base := fmt.Sprintf("h%d", wd.serial+1)
 	// the issuer signs through CA.Leaf (serials from the CA's own counter, far below ours)
 	h.iss.Issued = func(n int, names []string, chain []byte, leaf *x509.Certificate) {
-		c := &c14Cert{name: names[0], chainPEM: chain, leaf: leaf, url: true, flavor: "issued", managed: true}
+		c := &c14Cert{name: names[0], chainPEM: chain, leaf: leaf, url: true, flavor: "issued", managed: true, chain: true}
 		c.setKey()
+		wd.recordCodeKeys(c)
 		t.addCert(c)
 		h.issued = append(h.issued, c)
 	}
@@ -804,13 +932,86 @@ func (wd *c14World) runHist(plan c14Plan, desc map[string]any) {
 	// touched since; prevStaple: the staples of the previous snapshot
 	own := map[int][]byte{}
 	prevStaple := map[int]string{}
+	// observe encodes what can be seen after an operation (or in the middle of one): the cache,
+	// the persisted staples, the calls made since (mark, lmark), and what GetCertificate serves
+	type retObs struct {
+		ok     bool
+		cert   int
+		staple int
+	}
+	observe := func(se *emit.Enc, opName string, ownRef int, ret *retObs, callCerts []*c14Cert, mark, lmark int) {
+		if *abandoned {
+			panic("history abandoned")
+		}
+		encOpt(se, ownRef)
+		if ret == nil || !ret.ok {
+			se.Bool(false)
+		} else {
+			se.Bool(true).Int(ret.cert)
+			encOpt(se, ret.staple)
+		}
+		snap, _ := h.snapshot(se)
+		reqs := wd.resp.Since(mark)
+		ops := h.b.Log.Snapshot()[lmark:]
+		curStaple := map[int]string{}
+		for _, v := range certmagic.VerifCacheOCSPSnapshot(h.cache) {
+			c := t.certBySerial(v.Serial)
+			if c == nil || v.Staple == nil {
+				continue
+			}
+			curStaple[c.idx] = string(v.Staple)
+			if prevStaple[c.idx] == string(v.Staple) {
+				continue
+			}
+			for _, o := range ops { // newly attached: did the implementation persist it (anywhere)?
+				if o.Kind == "Store" && strings.HasPrefix(o.Key, "ocsp/") && o.Err == "" && o.Digest == doubles.Digest(v.Staple) {
+					own[c.idx] = append([]byte(nil), v.Staple...)
+				}
+			}
+		}
+		prevStaple = curStaple
+		type cl struct {
+			Cert int     `json:"cert"`
+			Seen bool    `json:"seen"`
+			Ops  []int64 `json:"ops"`
+		}
+		var cls []cl
+		sort.Slice(callCerts, func(i, j int) bool { return callCerts[i].idx < callCerts[j].idx })
+		for _, c := range callCerts {
+			seen := false
+			for _, r := range reqs {
+				if r.Serial == c.leaf.SerialNumber.String() {
+					seen = true
+				}
+			}
+			so := sopCodes(ops, c.key)
+			if seen || len(so) > 0 {
+				cls = append(cls, cl{c.idx, seen, so})
+			}
+		}
+		se.Len(len(cls))
+		for _, x := range cls {
+			se.Int(x.Cert).Bool(x.Seen).ZList(x.Ops)
+		}
+		sv := h.served(se)
+		st := map[string]any{"op": opName, "after": snap, "calls": cls, "served": sv}
+		if ret != nil {
+			st["returned"] = map[string]any{"ok": ret.ok, "cert": ret.cert, "staple": ret.staple}
+		}
+		steps = append(steps, st)
+		body.Big(se.String())
+		nsteps++
+		wd.w.Hist("hist.op=" + opName)
+	}
 	for _, op := range plan.Ops {
 		se := &emit.Enc{}
 		ownRef := -1
+		var ret *retObs
 		now := time.Now()
 		mark, lmark := wd.resp.Mark(), len(h.b.Log.Snapshot())
 		h.issued, h.failed, h.failIssue = nil, nil, false
 		var callCerts []*c14Cert // certificates whose staple key may be touched
+		opName := op.Op
 		switch op.Op {
 		case "tamper":
 			c := planned[op.Cert]
@@ -858,7 +1059,7 @@ func (wd *c14World) runHist(plan c14Plan, desc map[string]any) {
 			}
 			h.b.Log.Hook = nil
 			if err != nil {
-				_, hasKey := h.b.Get(certmagic.StorageKeys.SitePrivateKey(h.iss.IssuerKey(), c.name))
+				_, hasKey := h.b.Get(c14SiteKey(h.iss.IssuerKey(), c.name, ".key"))
 				if c.managed && (!hasKey || h.storedCertFor(c.name) == nil) {
 					// nothing loadable in storage for the name (e.g. its key was moved away after a
 					// key-compromise revocation that could not be replaced): not an OCSP matter
@@ -875,7 +1076,43 @@ func (wd *c14World) runHist(plan c14Plan, desc map[string]any) {
 			callCerts = []*c14Cert{c}
 			feat["cache.ans="+a.label()] = true
 			wd.w.Hist("hist.cache.ans=" + a.Kind)
-		case "maintain":
+		case "maintain", "handshake", "manage":
+			// one pass over the cache: the maintenance tick looks at every certificate; a handshake
+			// (with on-demand management) or manageOne at one
+			var target *c14Cert
+			midDone := false
+			if op.Op != "maintain" {
+				pc := planned[op.Cert]
+				if !pc.managed {
+					continue
+				}
+				target = cachedByName()[pc.name]
+				if op.Op == "handshake" {
+					managedInCache := false
+					for _, v := range certmagic.VerifCacheOCSPSnapshot(h.cache) {
+						if target != nil && v.Serial == target.leaf.SerialNumber.String() && v.Managed {
+							managedInCache = true
+						}
+					}
+					if target == nil || !managedInCache || target.flavor == "expired" {
+						wd.w.Hist("hist.handshake.skipped-not-cached")
+						continue
+					}
+				} else {
+					// manageOne does nothing if a managed certificate for the name is in the cache,
+					// and obtains one if storage has none: only the load-from-storage path is modelled
+					if target != nil {
+						wd.w.Hist("hist.manage.skipped-already-cached")
+						continue
+					}
+					target = h.storedCertFor(pc.name)
+					_, hasKey := h.b.Get(c14SiteKey(h.iss.IssuerKey(), pc.name, ".key"))
+					if target == nil || !hasKey {
+						wd.w.Hist("hist.manage.skipped-not-in-storage")
+						continue
+					}
+				}
+			}
 			h.cfg.OCSP.DisableStapling = op.Disabled
 			h.cfg.OCSP.ResponderOverrides = nil
 			// per certificate answers, by serial; "new" for certificates issued during the pass
@@ -888,6 +1125,9 @@ func (wd *c14World) runHist(plan c14Plan, desc map[string]any) {
 			var cached []*c14Cert
 			for _, v := range views {
 				cached = append(cached, t.certBySerial(v.Serial))
+			}
+			if op.Op == "manage" {
+				cached = append(cached, target) // it is about to be cached
 			}
 			sort.Slice(cached, func(i, j int) bool { return cached[i].idx < cached[j].idx })
 			allRefused := true
@@ -955,9 +1195,69 @@ func (wd *c14World) runHist(plan c14Plan, desc map[string]any) {
 				}
 				return nil
 			}
-			certmagic.VerifUpdateOCSPStaples(ctx, h.cache)
+			switch op.Op {
+			case "maintain":
+				certmagic.VerifUpdateOCSPStaples(ctx, h.cache)
+			case "handshake":
+				h.cfg.OnDemand = &certmagic.OnDemandConfig{DecisionFunc: func(context.Context, string) error { return nil }}
+				hello, done := doubles.Hello(target.name)
+				tc, herr := h.cfg.GetCertificate(hello)
+				done()
+				// a forced renewal runs in the background: wait for it to finish
+				for i := 0; i < 2000 && certmagic.VerifOnDemandRenewalPending(target.name); i++ {
+					time.Sleep(5 * time.Millisecond)
+				}
+				h.cfg.OnDemand = nil
+				ret = &retObs{}
+				if herr == nil && tc != nil && tc.Leaf != nil {
+					rc := t.certBySerial(tc.Leaf.SerialNumber.String())
+					if rc == nil {
+						rc = t.unknownCert(tc.Leaf.SerialNumber.String(), target.name, tc.Leaf)
+					}
+					ret = &retObs{ok: true, cert: rc.idx, staple: t.optBlob(tc.OCSPStaple, tc.OCSPStaple != nil)}
+				}
+			case "manage":
+				// manageOne = CacheManagedCertificate, then the reaction to a Revoked status; the
+				// state in between is observed from the "cached_managed_cert" event
+				mid := &emit.Enc{}
+				ev0 := bySerial[target.leaf.SerialNumber.String()].ev
+				h.cfg.OnEvent = func(_ context.Context, event string, _ map[string]any) error {
+					if event != "cached_managed_cert" || midDone {
+						return nil
+					}
+					midDone = true
+					mid.Int(1).Int(target.idx).Bool(true).Bool(op.Disabled)
+					encEnv(mid, ev0)
+					mid.Big(bigTime(now))
+					ow := -1
+					if ob, ok := own[target.idx]; ok {
+						ow = t.blob(ob)
+					}
+					observe(mid, "manage:cache", ow, nil, []*c14Cert{target}, mark, lmark)
+					mark, lmark = wd.resp.Mark(), len(h.b.Log.Snapshot())
+					return nil
+				}
+				merr := h.cfg.ManageSync(ctx, []string{target.name})
+				h.cfg.OnEvent = nil
+				_ = merr
+				if !midDone {
+					wd.w.Hist("hist.manage.NOT-CACHED")
+					h.b.Log.Hook = nil
+					continue
+				}
+			}
 			h.b.Log.Hook = nil
-			se.Int(2).Bool(op.Disabled).Big(bigTime(now))
+			// who looked at which certificate: 0 tick, 1 handshake, 2 manageOne, 3 nobody
+			se.Int(2)
+			switch op.Op {
+			case "maintain":
+				se.Int(0).Len(0)
+			case "handshake":
+				se.Int(3).Len(1).Int(target.idx).Int(1)
+			case "manage":
+				se.Int(3).Len(1).Int(target.idx).Int(2)
+			}
+			se.Bool(op.Disabled).Big(bigTime(now))
 			se.Len(len(cached))
 			for _, c := range cached {
 				se.Int(c.idx)
@@ -1023,55 +1323,18 @@ func (wd *c14World) runHist(plan c14Plan, desc map[string]any) {
 			return
 		}
 		// observation after the op
-		encOpt(se, ownRef)
-		snap, _ := h.snapshot(se)
-		reqs := wd.resp.Since(mark)
-		ops := h.b.Log.Snapshot()[lmark:]
-		curStaple := map[int]string{}
-		for _, v := range certmagic.VerifCacheOCSPSnapshot(h.cache) {
-			c := t.certBySerial(v.Serial)
-			if c == nil || v.Staple == nil {
-				continue
+		if op.Op == "handshake" || op.Op == "manage" {
+			if len(wd.resp.Since(mark)) > 0 {
+				wd.w.Hist("hist." + op.Op + ".responder-asked")
 			}
-			curStaple[c.idx] = string(v.Staple)
-			if prevStaple[c.idx] == string(v.Staple) {
-				continue
-			}
-			for _, o := range ops { // newly attached: did the implementation persist it (anywhere)?
-				if o.Kind == "Store" && strings.HasPrefix(o.Key, "ocsp/") && o.Err == "" && o.Digest == doubles.Digest(v.Staple) {
-					own[c.idx] = append([]byte(nil), v.Staple...)
-				}
+			if len(h.issued)+len(h.failed) > 0 {
+				wd.w.Hist("hist." + op.Op + ".forced-renewal")
 			}
 		}
-		prevStaple = curStaple
-		type cl struct {
-			Cert int     `json:"cert"`
-			Seen bool    `json:"seen"`
-			Ops  []int64 `json:"ops"`
-		}
-		var cls []cl
-		sort.Slice(callCerts, func(i, j int) bool { return callCerts[i].idx < callCerts[j].idx })
-		for _, c := range callCerts {
-			seen := false
-			for _, r := range reqs {
-				if r.Serial == c.leaf.SerialNumber.String() {
-					seen = true
-				}
-			}
-			so := sopCodes(ops, c.key)
-			if seen || len(so) > 0 {
-				cls = append(cls, cl{c.idx, seen, so})
-			}
-		}
-		se.Len(len(cls))
-		for _, x := range cls {
-			se.Int(x.Cert).Bool(x.Seen).ZList(x.Ops)
-		}
-		sv := h.served(se)
-		steps = append(steps, map[string]any{"op": op.Op, "after": snap, "calls": cls, "served": sv})
-		body.Big(se.String())
-		nsteps++
-		wd.w.Hist("hist.op=" + op.Op)
+		observe(se, opName, ownRef, ret, callCerts, mark, lmark)
+	}
+	if *abandoned {
+		return
 	}
 	parsed := t.encode(e)
 	e.Int(1).Len(nsteps)
@@ -1100,7 +1363,7 @@ func (wd *c14World) runHist(plan c14Plan, desc map[string]any) {
 
 // storedCertFor returns the known certificate whose chain is in storage for the managed name.
 func (h *c14Hist) storedCertFor(name string) *c14Cert {
-	v, ok := h.b.Get(certmagic.StorageKeys.SiteCert(h.iss.IssuerKey(), name))
+	v, ok := h.b.Get(c14SiteKey(h.iss.IssuerKey(), name, ".crt"))
 	if !ok {
 		return nil
 	}
@@ -1136,6 +1399,8 @@ func (wd *c14World) randAns(r *rand.Rand) c14Ans {
 		a.Signer = "delegate"
 	case 2:
 		a.Signer = "delegate-short"
+	case 3:
+		a.Signer = []string{"delegate-noeku", "delegate-expired", "delegate-future", "ca-embedded"}[r.Intn(4)]
 	}
 	if r.Intn(3) == 0 {
 		a.This, a.Next = c14This[r.Intn(len(c14This))], c14Next[r.Intn(len(c14Next))]
@@ -1214,7 +1479,11 @@ func (wd *c14World) randPlan(r *rand.Rand) c14Plan {
 		case k < 15 && p.Certs[i].Managed:
 			a[fmt.Sprint(i)] = revokedAns([]int{0, 1}[r.Intn(2)])
 		}
-		p.Ops = append(p.Ops, c14HOp{Op: "cache", Cert: i, Ans: a, Faults: faults(), Disabled: r.Intn(15) == 0})
+		opn := "cache"
+		if p.Certs[i].Managed && r.Intn(4) == 0 {
+			opn = "manage"
+		}
+		p.Ops = append(p.Ops, c14HOp{Op: opn, Cert: i, Ans: a, Faults: faults(), Disabled: r.Intn(15) == 0, Renew: []string{"ok", "fail", "reload-fail"}[r.Intn(3)]})
 	}
 	m := 1 + r.Intn(5)
 	for k := 0; k < m; k++ {
@@ -1241,6 +1510,24 @@ func (wd *c14World) randPlan(r *rand.Rand) c14Plan {
 			p.Ops = append(p.Ops, c14HOp{Op: "tamper", Cert: r.Intn(n), Stored: storedKeys[r.Intn(len(storedKeys))]})
 		case 9:
 			p.Ops = append(p.Ops, c14HOp{Op: "cache", Cert: r.Intn(n), Ans: ans(), Faults: faults()})
+		}
+		// handshakes with on-demand management and manageOne, on a managed certificate
+		if r.Intn(3) == 0 {
+			var mg []int
+			for i, pc := range p.Certs {
+				if pc.Managed {
+					mg = append(mg, i)
+				}
+			}
+			if len(mg) > 0 {
+				a := ans()
+				ci := mg[r.Intn(len(mg))]
+				if r.Intn(3) == 0 {
+					a = one(revokedAns([]int{0, 1}[r.Intn(2)]))
+				}
+				p.Ops = append(p.Ops, c14HOp{Op: []string{"handshake", "handshake", "manage"}[r.Intn(3)], Cert: ci, Ans: a, Faults: faults(),
+					Renew: []string{"ok", "ok", "fail", "fail", "reload-fail"}[r.Intn(5)], Disabled: r.Intn(20) == 0})
+			}
 		}
 	}
 	return p
@@ -1272,6 +1559,13 @@ func runC14(tier string, seed int64, outdir string, replay string) error {
 	defer wd.resp.Close()
 	wd.dgLong = wd.ca.Delegate(time.Now().Add(5 * 365 * 24 * time.Hour))
 	wd.dgShort = wd.ca.Delegate(time.Now().Add(3 * time.Hour))
+	wd.dgNoEKU = wd.ca.DelegateWith(time.Now().Add(-24*time.Hour), time.Now().Add(5*365*24*time.Hour), false)
+	wd.dgExpired = wd.ca.DelegateWith(time.Now().Add(-48*time.Hour), time.Now().Add(-time.Hour), true)
+	wd.dgFuture = wd.ca.DelegateWith(time.Now().Add(2*time.Hour), time.Now().Add(5*365*24*time.Hour), true)
+	wd.dgSelf = &doubles.OCSPDelegate{Cert: wd.ca.Cert}
+	aia, aiaHits := wd.ca.NewAIAServer()
+	defer aia.Close()
+	wd.aiaURL, wd.aiaHits = aia.URL+"/ca.der", aiaHits
 	finish := func() {
 		w.Meta.Oracles = append(w.Meta.Oracles, emit.OracleCheck{
 			Name:   fmt.Sprintf("ocsp.ParseResponse(b, issuer) = ocsp.ParseResponse(b, nil) + signature check, no serial comparison (%d byte strings parsed both ways)", wd.oracleChecked),
@@ -1281,7 +1575,14 @@ func runC14(tier string, seed int64, outdir string, replay string) error {
 			Name:   "harness set-up (makeCertificate on harness leaves, ObtainCertSync with the issuer double) succeeds",
 			OK:     wd.setupFailures == 0,
 			Detail: fmt.Sprintf("%d failures; first: %s", wd.setupFailures, wd.setupDetail)})
-		w.Meta.Extra = map[string]any{"skipped_boundary": wd.skippedBoundary}
+		w.Meta.Extra = map[string]any{"skipped_boundary": wd.skippedBoundary,
+			// recorded only: the code's own StorageKeys.OCSPStaple against the harness's independent key
+			"code_staple_key_agrees": wd.keyAgree, "code_staple_key_disagrees": wd.keyDisagree, "code_staple_key_first_disagreement": wd.keyDetail,
+			"issuer_downloads_seen": wd.aiaHits()}
+		w.Meta.Oracles = append(w.Meta.Oracles, emit.OracleCheck{
+			Name:   "embedded responder certificates are described with crypto/x509 only (validity, ExtKeyUsage, byte equality with the issuer); storage keys of persisted staples and certificate resources are computed by the harness (hash/fnv), the code's own answers are only recorded",
+			OK:     true,
+			Detail: fmt.Sprintf("code key = harness key on %d certificates, differs on %d", wd.keyAgree, wd.keyDisagree)})
 		w.Meta.Rule = "calls: stapling enabled and a persisted staple or a responder answer is examined, distinct (flavor, persisted state, earlier state, answer, faults) tuples; histories: distinct plans of at least 2 operations"
 		w.Close()
 	}
@@ -1323,6 +1624,62 @@ func runC14(tier string, seed int64, outdir string, replay string) error {
 	wd.runCall(c14CallIn{Flavor: "noissuer", Stored: "fresh-forged", Ans: c14Ans{Kind: "drop"}})
 	// the repo's own TestStapleOCSP/ok shape: zero ThisUpdate and NextUpdate
 	wd.runCall(c14CallIn{Flavor: "normal", Stored: "absent", Ans: c14Ans{Kind: "resp", Status: ocsp.Good, Serial: "right", This: "zero", Next: "zero", Signer: "ca"}})
+	// a Good answer signed by a certificate of the same CA that is no responder certificate, or by
+	// a responder certificate that has expired (fixed findings)
+	for _, sg := range []string{"delegate-noeku", "delegate-expired", "delegate-future", "ca-embedded", "delegate"} {
+		wd.runCall(c14CallIn{Flavor: "normal", Stored: "absent", Ans: c14Ans{Kind: "resp", Status: ocsp.Good, Serial: "right", This: "recent", Next: "week", Signer: sg}})
+	}
+	// witness of C14_reuse_refuted_chainless: bare leaf with an issuer URL, a fresh properly signed
+	// persisted staple, responder down: the persisted staple is not used (it cannot be verified)
+	wd.runCall(c14CallIn{Flavor: "noissuer-aia", Stored: "fresh", Ans: c14Ans{Kind: "drop"}})
+	wd.runCall(c14CallIn{Flavor: "noissuer-aia", Stored: "fresh-forged", Ans: goodAns()})
+	// responder reached through OCSPConfig.HTTPProxy / ResponderOverrides only
+	for _, via := range []string{"proxy", "override", ""} {
+		wd.runCall(c14CallIn{Flavor: "deadurl", Via: via, Stored: "absent", Ans: goodAns()})
+		wd.runCall(c14CallIn{Flavor: "deadurl", Via: via, Stored: "stale", Ans: revokedAns(0)})
+	}
+	wd.runCall(c14CallIn{Flavor: "muststaple", Stored: "absent", Ans: c14Ans{Kind: "drop"}})
+	// on-demand handshakes: stale Good staple refreshed by the handshake; Revoked learned by the
+	// handshake => replaced / evicted in the background; manageOne meets a Revoked certificate
+	staleG := c14Ans{Kind: "resp", Status: ocsp.Good, Serial: "right", This: "old", Next: "plus6h", Signer: "ca"}
+	staleR := c14Ans{Kind: "resp", Status: ocsp.Revoked, Serial: "right", This: "old", Next: "plus6h", Signer: "ca"}
+	for _, rn := range []string{"ok", "fail", "reload-fail"} {
+		wd.runHist(mkPlan("m:normal,u:normal",
+			c14HOp{Op: "cache", Cert: 0, Ans: one(staleG)},
+			c14HOp{Op: "cache", Cert: 1, Ans: one(staleG)},
+			c14HOp{Op: "handshake", Cert: 0, Ans: one(c14Ans{Kind: "resp", Status: ocsp.Good, Serial: "right", This: "old", Next: "plus1h", Signer: "ca"}), Renew: rn},
+			c14HOp{Op: "handshake", Cert: 0, Ans: one(revokedAns(0)), Renew: rn},
+			c14HOp{Op: "handshake", Cert: 0, Ans: one(goodAns()), Renew: rn},
+			c14HOp{Op: "tamper", Cert: 0, Stored: "absent"},
+			c14HOp{Op: "cache", Cert: 0, Ans: one(staleG)},
+			c14HOp{Op: "handshake", Cert: 0, Ans: one(revokedAns(1)), Renew: rn},
+			c14HOp{Op: "handshake", Cert: 0, Ans: one(c14Ans{Kind: "drop"}), Renew: rn}), map[string]any{"class": "handshake-revoked-" + rn})
+		wd.runHist(mkPlan("m:normal",
+			c14HOp{Op: "cache", Cert: 0, Ans: one(staleR)},
+			c14HOp{Op: "handshake", Cert: 0, Ans: one(c14Ans{Kind: "drop"}), Renew: rn},
+			c14HOp{Op: "handshake", Cert: 0, Ans: one(goodAns()), Renew: rn}), map[string]any{"class": "handshake-recorded-revoked-" + rn})
+		wd.runHist(mkPlan("m:normal",
+			c14HOp{Op: "manage", Cert: 0, Ans: one(revokedAns(0)), Renew: rn},
+			c14HOp{Op: "maintain", Ans: one(goodAns()), Renew: rn},
+			c14HOp{Op: "restart"},
+			c14HOp{Op: "manage", Cert: 0, Ans: one(staleG), Renew: rn},
+			c14HOp{Op: "handshake", Cert: 0, Ans: one(c14Ans{Kind: "resp", Status: ocsp.Good, Serial: "right", This: "recent", Next: "week", Signer: "delegate-noeku"}), Renew: rn},
+			c14HOp{Op: "handshake", Cert: 0, Ans: one(goodAns()), Faults: c14Faults{Store: true}, Renew: rn},
+			c14HOp{Op: "maintain", Ans: one(c14Ans{Kind: "drop"}), Renew: rn}), map[string]any{"class": "manage-revoked-" + rn})
+	}
+	// maintenance ticks across a restart over the same storage
+	wd.runHist(mkPlan("m:normal,u:tenday",
+		c14HOp{Op: "manage", Cert: 0, Ans: one(staleG)},
+		c14HOp{Op: "cache", Cert: 1, Ans: one(staleG)},
+		c14HOp{Op: "maintain", Ans: one(goodAns()), Renew: "ok"},
+		c14HOp{Op: "restart"},
+		c14HOp{Op: "manage", Cert: 0, Ans: one(c14Ans{Kind: "drop"})},
+		c14HOp{Op: "cache", Cert: 1, Ans: one(c14Ans{Kind: "drop"})},
+		c14HOp{Op: "maintain", Ans: one(c14Ans{Kind: "drop"}), Renew: "ok"},
+		c14HOp{Op: "maintain", Ans: one(revokedAns(0)), Renew: "ok"},
+		c14HOp{Op: "restart"},
+		c14HOp{Op: "manage", Cert: 0, Ans: one(c14Ans{Kind: "drop"})},
+		c14HOp{Op: "maintain", Ans: one(c14Ans{Kind: "drop"}), Renew: "ok"}), map[string]any{"class": "ticks-across-restarts"})
 	// histories aimed at each clause
 	wd.runHist(mkPlan("u:normal",
 		c14HOp{Op: "cache", Cert: 0, Ans: one(goodAns())},
@@ -1378,11 +1735,14 @@ func runC14(tier string, seed int64, outdir string, replay string) error {
 	count := 0
 	for _, st := range []int{ocsp.Good, ocsp.Revoked, ocsp.Unknown} {
 		for _, ser := range []string{"right", "other"} {
-			for _, sg := range []string{"ca", "other", "delegate"} {
+			for _, sg := range []string{"ca", "other", "delegate", "delegate-noeku", "delegate-expired"} {
 				for _, th := range thisSet {
 					for _, nx := range nextSet {
 						if tier != "thorough" && (st != ocsp.Good && (sg != "ca" || ser != "right")) {
 							continue // quick: non-Good statuses only with the plain signer and serial
+						}
+						if tier != "thorough" && strings.HasPrefix(sg, "delegate-") && (ser != "right" || (th != "recent" && th != "old")) {
+							continue
 						}
 						wd.runCall(c14CallIn{Flavor: "normal", Stored: "absent", Ans: c14Ans{Kind: "resp", Status: st, Serial: ser, This: th, Next: nx, Signer: sg}})
 						count++
@@ -1394,7 +1754,7 @@ func runC14(tier string, seed int64, outdir string, replay string) error {
 	// every persisted state against a few answers and flavors
 	for _, sk := range c14StoredKeys() {
 		for _, a := range []c14Ans{goodAns(), {Kind: "drop"}, {Kind: "refused"}, revokedAns(0), {Kind: "garbage", HTTP: 500}} {
-			for _, fl := range []string{"normal", "short", "nourl"} {
+			for _, fl := range []string{"normal", "short", "nourl", "noissuer-aia"} {
 				if fl != "normal" && a.Kind == "resp" && a.Status == ocsp.Revoked {
 					continue
 				}
@@ -1406,15 +1766,17 @@ func runC14(tier string, seed int64, outdir string, replay string) error {
 	w.Meta.Exhaustive = false
 	w.Meta.Universe = fmt.Sprintf("enumerated completely: %d single calls = response shapes {status} x {serial} x {signer} x {thisUpdate} x {nextUpdate} on a fresh certificate, and {persisted state} x {5 answers} x {3 flavors}; the rest is random", count)
 	// ---- random calls over the whole product ----
-	flavors := []string{"normal", "normal", "normal", "short", "nourl", "short-nourl", "noissuer", "expired", "tenday"}
+	flavors := []string{"normal", "normal", "normal", "short", "nourl", "short-nourl", "noissuer", "noissuer-aia", "muststaple", "deadurl", "expired", "tenday"}
 	storedKeys := c14StoredKeys()
 	for i := 0; i < nCalls; i++ {
 		in := c14CallIn{Flavor: flavors[r.Intn(len(flavors))], Stored: "absent", Ans: wd.randAns(r), NilPEM: r.Intn(2) == 0, Disabled: r.Intn(25) == 0}
 		if r.Intn(2) == 0 {
 			in.Stored = storedKeys[r.Intn(len(storedKeys))]
 		}
-		if in.Flavor == "noissuer" && in.Stored == "fresh-forged" {
-			in.Stored = "fresh" // the chain-less forged case is the known finding of the corpus
+		if in.Flavor == "deadurl" {
+			in.Via = []string{"proxy", "override", "proxy", ""}[r.Intn(4)]
+		} else if r.Intn(12) == 0 && in.Flavor == "normal" {
+			in.Via = []string{"proxy", "override"}[r.Intn(2)]
 		}
 		if r.Intn(3) == 0 {
 			p := wd.randAns(r)
@@ -1432,7 +1794,7 @@ func runC14(tier string, seed int64, outdir string, replay string) error {
 		wd.runCall(in)
 	}
 	// ---- random histories ----
-	for i := 0; i < nHist; i++ {
+	for i := 0; i < nHist && wd.hung < 2; i++ {
 		wd.runHist(wd.randPlan(r), nil)
 	}
 	finish()
